@@ -2,13 +2,37 @@
 DEFAULT_NOTE = ('trusts CPython ast, hyperframe/hpack as summarised from their '
                 'source, and the reference tables in /verif/h2verif/spec '
                 '(transcribed from RFC 7540/7541/7838/8441); decides the listed '
-                'structural clauses, not the behaviour as a whole')
+                'structural clauses (each a necessary condition of the '
+                'property), not the behaviour as a whole; see DESIGN.md '
+                'section 4 for what is not decided')
 
 _FSM = ('typestate: transition table + guarded commands extracted from the '
         'AST, compared cell-wise with an RFC 7540 5.1 reference machine over '
         'all API-reachable abstract states; ')
+_PATH = 'path effect traces (syntax-directed path walk with affine normal forms, callees inlined where needed)'
 
 INFO = {
+ 'C01': {
+  'technique': 'table exhaustiveness (dispatch vs hyperframe registry), duality of both transition tables, allocation/opening-step atomicity and send-path order by ' + _PATH + ', wire agreement by value flow, cache-coherence of settings',
+  'level': 'umbrella property decided through send/receive agreement clauses: every dispatch entry, every accepting SEND cell and its mirror, every raise after an allocation or opening step in the header-sending calls, 13 public sending calls; HPACK/byte round trips and unbounded programs are not decided',
+ },
+ 'C02': {
+  'technique': 'frame-size budget per emit site (fixed size / dominating guard on the same affine amount / slice bound minus per-flag overhead from the hyperframe summary), header-block contiguity and argument->field contracts by ' + _PATH,
+  'level': 'all 17 emit sites classified; every frame built by a public call traced from argument to field; preface literal; hyperframe serialisation and HPACK output are trusted',
+ },
+ 'C03': {
+  'technique': 'affine normal forms: guard, frame-size check and both window decrements of send_data reduced to one form per path (stream method and hyperframe flow_controlled_length inlined); writer ownership of the window attributes; refusal-before-effect ordering',
+  'level': 'all paths of send_data with the stream method inlined, all writers of outbound_flow_control_window, the settings delta on every stream; the inductive step over histories is argued in prose, not mechanised',
+ },
+ 'C04': {
+  'technique': 'value flow of charged/credited amounts, boundary guards of the window manager as affine normal forms, no-raise-after-window-write atomicity with callees inlined, per-stream settings delta',
+  'level': 'both charge sites, both boundary guards, two public window-changing calls (all paths, callees inlined), five credit sites, the acknowledge-time delta on every live stream',
+ },
+ 'C05': {
+  'technique': 'normal forms of the increment assignments and reset discipline of _maybe_update_window; must-pass-through of the closed-stream refill; value flow of acknowledged amounts',
+  'level': 'the over-credit half and the refill plumbing on all paths of five functions; THE LIVENESS HALF IS NOT DECIDED (needs the value of the threshold expression and an induction over histories) and is stated as such',
+  'note': DEFAULT_NOTE + '; liveness ("a zero window does not stay zero") is explicitly outside what this check decides',
+ },
  'C06': {
   'technique': _FSM + 'path analysis of process_input and _receive_frame',
   'level': 'exhaustive static comparison of the extracted stream machine (78 cells x flag valuations, ~100 reachable abstract states x 19 inputs) with a hand-written reference, plus step-sequence contracts of every H2Stream method and the stream-error/connection-error mapping; any cell, guard, flag update or mapping that deviates is reported by cell',
@@ -21,12 +45,88 @@ INFO = {
   'technique': _FSM + 'connection table vs a role reference per role with role gates extracted from path conditions; trailers/END_STREAM and 1xx selection by path analysis of H2Stream.send_headers',
   'level': 'every SEND cell on every reachable abstract state, every (role, connection state, input) the role can feed; header-list validity is C14',
  },
+ 'C09': {
+  'technique': 'affine/parity normal forms of the three refusals of _begin_new_stream against folded constants, guards-before-bookkeeping ordering, parity argument of every creation call site, write sets of the PRIORITY paths',
+  'level': 'all paths of _begin_new_stream, get_next_available_stream_id and _get_stream_by_id, 5 creation call sites, the three-way StreamIDTooLowError split',
+ },
+ 'C10': {
+  'technique': 'affine normal forms of the two limit guards dominating stream creation; STREAM_OPEN evaluated from the module-level construction; opening transitions of the table vs guarded connection paths',
+  'level': 'both guards on all paths, all opening transitions of the extracted table; counting over histories follows by induction (not mechanised)',
+ },
+ 'C11': {
+  'technique': 'handler ordering, apply-map (cache coherence) per setting code and per stream, validate-all-before-queue atomicity, queue discipline of Settings, all by ' + _PATH + '; information-flow check for a per-frame record',
+  'level': 'both acknowledge handlers for every cached copy and every code independently, all paths of update_settings and of the Settings queue operations',
+ },
+ 'C12': {
+  'technique': 'interval analysis of _validate_setting (guards reduced to integer regions per identifier) compared with the RFC table; value flow of the error code',
+  'level': 'decided for ALL identifiers and ALL values 0..2**32-1 (exhaustive by intervals), three validating entry points, the window-overflow guard on every stream',
+ },
+ 'C13': {
+  'technique': 'must-precede (state step before encode), no-raise-after-encode atomicity over the five functions on the header send path, lazy-value typing of the encoder argument (generators consumed inside the encoder), writer ownership of the encoder table size',
+  'level': 'every path of the five functions; hpack itself and the decode side are trusted',
+ },
+ 'C14': {
+  'technique': 'table comparison of the six name sets, pipeline stage presence/order/transformation and every validation clause by path analysis of each generator stage (one symbolic iteration)',
+  'level': 'all stages of both outbound pipelines, every clause\'s refusal condition and pass-through, the four config combinations of _build_headers_frames',
+ },
+ 'C15': {
+  'technique': 'as C14 for the inbound pipeline, plus the upper-case regex read with the standard library\'s regex parser, cookie joining, the eight config combinations of _process_received_headers',
+  'level': 'all 8 validation stages and the normalisation stage, clause by clause; "accepts every conformant block" is decided through the form of each guard, not by executing string operations',
+ },
+ 'C16': {
+  'technique': 'ordering/pairing rules and affine normal forms on the five functions that carry the content-length logic; writer ownership of request_method',
+  'level': 'all paths of receive_headers, receive_data, _track_content_length, _initialize_content_length and send_headers',
+ },
+ 'C17': {
+  'technique': 'exception-escape analysis over the resolved call graph from receive_data (dispatch table, state machines, lazily consumed generator pipelines, iteration protocol), every partial operation/assertion/external call discharged by handler, dominating guard, shape fact (minimum list length, state-machine column, table coverage) or named exemption',
+  'level': '~105 partial operations, 15 assertions and 31 external calls in ~90 functions reachable from one entry point; hyperframe/hpack raise only what their source says; recursion depth through the CONTINUATION backlog rule',
+ },
+ 'C18': {
+  'technique': 'handler/terminate ordering and GOAWAY field flow by ' + _PATH + '; error category table: statically resolved error_code of the exception class each detecting function raises; state-machine clause for frames after END_STREAM',
+  'level': 'all paths of receive_data and _terminate_connection, 13 detecting functions, 4 translations, 12 exception classes',
+ },
+ 'C19': {
+  'technique': 'CLOSED row and GOAWAY column of the connection table; must-precede: a connection-machine step that CLOSED refuses dominates every emit and stream creation in all public methods and frame handlers',
+  'level': '30+ entry points, all their paths; the property is essentially structural',
+ },
  'C20': {
   'technique': 'typestate on reset-closed abstract states x in-flight receive inputs; dominance/ordering rules on frame handlers (decode before lookup, classification before connection-level refusals, RST => record, charged DATA => refill) by path effect traces',
   'level': 'all reachable states closed by a local reset x 8 in-flight inputs; every path of the seven frame handlers that look a stream up; schedules themselves are not enumerated',
  },
+ 'C21': {
+  'technique': 'buffer discipline of FrameBuffer (no write on StopIteration paths, exact consumption, decisions read only parser state), single drain loop, cache coherence of the frame-size limit, output slicing forms',
+  'level': 'all paths of the four FrameBuffer methods, every write of max_inbound_frame_size; equality of event lists under chunkings rests on these structural facts',
+ },
  'C22': {
   'technique': 'ordered-gate (must-precede) analysis of push_stream and _receive_push_promise_frame on every path; push cells and reserved rows vs the reference machine; event-field value flow; allocation-before-raise atomicity',
-  'level': 'all paths of the two push entry points and the stream-level push methods, all push cells x reachable abstract states; ENABLE_PUSH timing over histories is not decided beyond "the acknowledged value is the one read"',
+  'level': 'all paths of the two push entry points and the stream-level push methods, all push cells x reachable abstract states',
+ },
+ 'C23': {
+  'technique': 'gate ordering, range/self-dependency guards as normal forms, frame and event field flow with callees inlined, write set of the PRIORITY handler, self-loops of the connection table',
+  'level': 'all paths of prioritize, the priority branch of send_headers, _receive_priority_frame and the validation helpers',
+ },
+ 'C24': {
+  'technique': 'argument-check ordering, alt-svc cells of both machines vs references, frame/event field flow, single-capture of the request authority',
+  'level': 'all paths of the send and receive entry points, all alt-svc cells x reachable abstract states, all writers of _authority',
+ },
+ 'C25': {
+  'technique': 'sibling agreement of the two SETTINGS fills, codec pairing, upgrade step order, upgrade cells of the extracted machine, next-id forms',
+  'level': 'all paths of initiate_upgrade_connection and initiate_connection; equality of the two settings views rests on hyperframe serialize/parse being inverse',
+ },
+ 'C26': {
+  'technique': 'trace shape of _receive_ping_frame and ping() (value flow of the payload, one frame per path), writer ownership of the output buffer',
+  'level': 'completely structural: both paths of the handler, the sender, all writers of _data_to_send',
+ },
+ 'C27': {
+  'technique': 'transitive write sets of the non-opening handlers, writers of the stream tables, folded caps and the eviction loop, clean-up on every creating path, backlog and frame-length guards',
+  'level': '9 handlers, all inserters of both stream tables, 3 caps, both creating paths; actual memory is not measured',
+ },
+ 'C28': {
+  'technique': 'purity lint specific to this package: imports and calls of 11 modules, every iteration/join/format site by container type (sets vs ordered containers), shared mutable objects (class attributes, globals, default arguments)',
+  'level': 'sufficient condition over all modules, ~150 order-sensitive sites',
+ },
+ 'C29': {
+  'technique': 'exception-escape set of each of the 23 public entry points; frame-size budget at every emit site (post-append assertion as a precondition); no-raise-after-append atomicity with callees inlined',
+  'level': '23 entry points x escape set, every direct use of the stream table, 17 emit sites',
  },
 }
